@@ -227,7 +227,7 @@ pub fn run(cfg: &Cfg, rep: &mut Report) {
     ] {
         fixed.push((p.to_string(), fl(f)));
     }
-    let spec = StreamSpec { n_struct: cfg.scaled(if cfg.quick() { 10_000 } else { 300_000 }), enum_nodes: 0, enum_flags: vec![], tweak, fixed, templates: true };
+    let spec = StreamSpec { n_struct: cfg.scaled(if cfg.quick() { 25_000 } else { 300_000 }), enum_nodes: 0, enum_flags: vec![], tweak, fixed, templates: true };
     let opts = DriveOpts { budget: if cfg.quick() { 80 } else { 250 }, n_long: 2, n_plant: 2, ascii_only: false, sample_every: 199 };
     drive(&C16, cfg, rep, &spec, &opts);
 }
